@@ -43,6 +43,18 @@ CHECKS.update({
              '(an exception is a failed .total clause) equal to the definition computed by TLC on the projected tree.'),
 })
 
+CHECKS.update({
+    'C18': dict(technique='TLA+ truth-table semantics of constraint trees (FMAst.tla); TLC enumerates all trees of depth <= 2 over three names '
+                          '(and random deeper ones); recorded Classify events judged by trace validation',
+        design_ref='DESIGN.md section 8 (C18)',
+        text='Every tree of depth <= 2 over 3 names and 8 logical operators (33k), arithmetic/aggregate shapes, and random deeper trees: '
+             'all eleven constraint predicates, the extracted (l, r) pair, split_constraint and get_features are called; TLC decides '
+             'soundness of requires/excludes by complete truth tables, the documented forms, mutual consistency of the kind reports, '
+             'equivalence of the conjunction of the split parts, purity and totality. The known dependency defect in '
+             'flamapy.core simplify_formula is modelled as a named deviation (FMAst!DepSimplify) and only results it explains exactly '
+             'are attributed to it.'),
+})
+
 REASON_TODO = 'check not built yet (build in progress; see DESIGN.md section 12)'
 
 
